@@ -117,6 +117,10 @@ def fetch_scenarios(ck):
         out.append((notation, 'matching', 'xs', 'reassigned-xt'))
         out.append((notation, 'matching', 'xs', 'reassigned-infohash'))
         out.append((notation, 'other', 'xs', 'reassigned-xt'))
+        # the magnet fetched matching metadata, then its hash is changed to another valid one: the old metadata must not be kept
+        out.append((notation, 'other', 'xs', 'fetched-then-reassigned-xt'))
+        out.append((notation, 'other', 'xs', 'fetched-then-reassigned-infohash'))
+        out.append((notation, 'other', 'xs', 'fetched-then-reassigned-no-refetch'))
     return out
 
 
@@ -137,8 +141,22 @@ def run_fetch(port, notation, served, source, history='fresh'):
         kw['ws'] = [base + '/ws']
     else:
         kw['tr'] = [base + '/announce']
+    refetch = True
     if history == 'fresh':
         m = torf.Magnet(xt=h, **kw)
+    elif history.startswith('fetched-then-reassigned'):
+        # served = the torrent matching the first hash; afterwards the magnet holds another hash (in the same notation)
+        Handler.served = {k: good for k in Handler.served}
+        m = torf.Magnet(xt=h, **kw)
+        m.get_info(timeout=5, callback=lambda e: None)
+        ih = 'cd' * 20
+        h2 = {'hex-lower': ih, 'hex-upper': ih.upper(), 'b32-upper': base64.b32encode(bytes.fromhex(ih)).decode(),
+              'b32-lower': base64.b32encode(bytes.fromhex(ih)).decode().lower()}[notation]
+        if history.endswith('-xt'):
+            m.xt = 'urn:btih:' + h2
+        else:
+            m.infohash = h2
+        refetch = not history.endswith('no-refetch')
     else:
         m = torf.Magnet(xt='ab' * 20, **kw)
         try:
@@ -152,7 +170,7 @@ def run_fetch(port, notation, served, source, history='fresh'):
             m.infohash = h
     errors = []
     try:
-        ok = m.get_info(timeout=5, callback=errors.append)
+        ok = m.get_info(timeout=5, callback=errors.append) if refetch else False
         res = ('ok', ok)
     except Exception as e:  # noqa
         res = ('err', sl.canon_exc(e))
@@ -267,8 +285,8 @@ def run(ck, model_ok):
                 if res != ('ok', True) or not adopted or tih != ih:
                     ck.fail('oracle', 'matching-metadata-not-adopted', case, 'adopted', repr((res, adopted, tih)), 'matching metadata was not adopted')
             else:
-                if adopted:
-                    ck.fail('oracle', 'non-matching-metadata-adopted', case, 'not adopted', repr((res, adopted, tih)), 'non-matching or invalid metadata was adopted')
+                if adopted or res == ('ok', True):
+                    ck.fail('oracle', 'non-matching-metadata-adopted', case, 'not adopted', repr((res, adopted, tih)), 'non-matching or invalid metadata was adopted (or kept after the hash changed)')
                 if res[0] == 'err' and res[1] != ('MetainfoError',):
                     ck.fail('oracle', 'fetch-raises:' + res[1][0], case, 'False/MetainfoError', repr(res), 'unexpected exception from get_info')
                 if tih != ih:
